@@ -13,6 +13,7 @@ func views() map[string]View {
 		"sim":     newSimView(),
 		"route":   newRouteView(),
 		"sdecode": sdecodeView{},
+		"cluster": clusterView{},
 	}
 }
 
